@@ -280,3 +280,13 @@ from pyvc.harness import reuse as _reuse
 _reuse("C03/dir_to_binary", "C02/body.directory=layout(offsets-advance-by-stored-length)")
 _reuse("C03/to_binary", "C02/body.to_binary=layout")
 _reuse("C01/from_binary(layout(f))=f[mac-check-on]", "C02/body.from_binary(layout(f))=f")
+_reuse("C03/Bec2File.to_binary+write_file", "C02/Bec2File.to_binary+write_file.hand-over")
+
+
+# the cipher is seen through its contract in the proofs above (ENC / DEC / MAC as functions of key, IV and zero-padded data: auth-block frames and the body);
+# that contract - the registered adapter IS zero-padded AES-128-CBC with the given or all-zero IV, its MAC the last block, and
+# it refuses empty / ragged input with ValueError - is proved under C16 and discharged under this property too
+from pyvc.harness import reuse as _reuse_aes  # noqa: E402
+for _n in (1, 16, 17):
+    _reuse_aes("C16/adapter[len=%d]" % _n, "C02/AES128Proxy=zero-padded-CBC[len=%d]" % _n)
+_reuse_aes("C16/adapter.bad-lengths", "C02/AES128Proxy.bad-lengths=>ValueError")
